@@ -245,12 +245,15 @@ def run_property(pid: str, tier: str) -> int:
                           "solver_s": p.get("solver_s", 0.0), "reason": p.get("reason"),
                           "source": p.get("info"), "bounded_evaluations": b["evaluations"],
                           "bounded_returned": b["returned"], "bounded_raised": b["raised"],
-                          "bounded_exhaustive_within_bounds": b["exhaustive_within_bounds"], "bounds": b["bounds"]})
+                          "bounded_exhaustive_within_bounds": b["exhaustive_within_bounds"], "bounds": b["bounds"],
+                          # vacuity guard: return paths whose hypotheses were tested for refutability; those found
+                          # unreachable by the function's own conditions (dead code, not counted against the proof)
+                          "vacuity_checks": p.get("vacuity_checks", 0), "dead_return_paths": p.get("dead_return_paths", 0)})
         evaluations += b["evaluations"]
         distinct += b["distinct"]
         samples += [{"function": p["function"], **s} for s in b["samples"][:1]]
         if p["rung"] == "vacuous":
-            checker_errors.append(f"{p['function']}: zero obligations generated")
+            checker_errors.append(f"{p['function']}: {p.get('reason') or 'zero obligations generated'}")
         if b["evaluations"] == 0:
             checker_errors.append(f"{p['function']}: contract never evaluated on the real function "
                                   f"(vacuous precondition or generator)")
